@@ -76,6 +76,7 @@ struct BodyInfo {
     let_loops: Vec<String>,
     ref_pats: Vec<String>,
     closures: usize,
+    wilds: Vec<String>,
 }
 
 struct BreakCollector<'a> {
@@ -197,6 +198,15 @@ impl<'a, 'ast> Visit<'ast> for BodyVisitor<'a> {
     }
     fn visit_expr_closure(&mut self, c: &'ast syn::ExprClosure) {
         self.info.closures += 1;
+        for inp in &c.inputs {
+            let p = match inp {
+                syn::Pat::Type(t) => &*t.pat,
+                p => p,
+            };
+            if let syn::Pat::Wild(w) = p {
+                self.info.wilds.push(span_json(w.span()));
+            }
+        }
         syn::visit::visit_expr_closure(self, c);
     }
     fn visit_local(&mut self, l: &'ast syn::Local) {
@@ -284,6 +294,13 @@ fn fn_json(
     let mut ids = Vec::new();
     collect_idents(tokens, mono, &mut ids);
     let ids: Vec<String> = ids.iter().map(|(n, a, b)| format!("[{},{},{}]", jstr(n), a, b)).collect();
+    for a in sig.inputs.iter() {
+        if let syn::FnArg::Typed(t) = a {
+            if let syn::Pat::Wild(w) = &*t.pat {
+                info.wilds.push(span_json(w.span()));
+            }
+        }
+    }
     let params: Vec<String> = sig
         .inputs
         .iter()
@@ -304,7 +321,7 @@ fn fn_json(
     };
     let (s, e) = br(whole);
     format!(
-        "{{\"kind\":\"fn\",\"name\":{},\"start\":{},\"end\":{},\"attrs\":{},\"vis\":{},\"sig\":{},\"ret\":{},\"generics\":{},\"gparams\":{},\"where\":{},\"params\":[{}],\"body_open\":{},\"body_close\":{},\"loops\":[{}],\"let_loops\":[{}],\"ref_pats\":[{}],\"closures\":{},\"idents\":[{}]}}",
+        "{{\"kind\":\"fn\",\"name\":{},\"start\":{},\"end\":{},\"attrs\":{},\"vis\":{},\"sig\":{},\"ret\":{},\"generics\":{},\"gparams\":{},\"where\":{},\"params\":[{}],\"body_open\":{},\"body_close\":{},\"loops\":[{}],\"let_loops\":[{}],\"ref_pats\":[{}],\"wilds\":[{}],\"closures\":{},\"idents\":[{}]}}",
         jstr(&sig.ident.to_string()),
         s,
         e,
@@ -321,6 +338,7 @@ fn fn_json(
         info.loops.join(","),
         info.let_loops.join(","),
         info.ref_pats.join(","),
+        info.wilds.join(","),
         info.closures,
         ids.join(",")
     )
